@@ -326,8 +326,15 @@ class SimCondition(object):
         self.lock.release()
         return False
 
+    def _owned(self, s):
+        if s is None or s.aborting:
+            return self.lock.locked_by is not None
+        return self.lock.locked_by == s.current.tid
+
     def wait(self, timeout=None):
         s = _sched()
+        if not self._owned(s):
+            raise RuntimeError("cannot wait on un-acquired lock")
         if s is None:
             raise Deadlock("single task waits on a condition: nobody can notify")
         if s.aborting:
@@ -349,6 +356,8 @@ class SimCondition(object):
 
     def notify(self, n=1):
         s = _sched()
+        if not self._owned(s):
+            raise RuntimeError("cannot notify on un-acquired lock")
         pending = [w for w in self.waiters if not w[1]]
         if s is not None and not s.aborting:
             for _ in range(min(n, len(pending))):
@@ -411,6 +420,29 @@ class SimManagerList(object):
 
     def __iter__(self):
         return iter(list(self._items))
+
+
+class YieldList(list):
+    """A plain list whose membership test / append / remove are yield points: list operations are
+    atomic in CPython, but a thread switch between two of them is legal (threading mode gets the same
+    granularity on its locked-identifier lists as the manager-list proxies of multiprocessing mode)."""
+
+    def _y(self):
+        s = _sched()
+        if s is not None and not s.aborting:
+            s.yield_point()
+
+    def __contains__(self, x):
+        self._y()
+        return list.__contains__(self, x)
+
+    def append(self, x):
+        self._y()
+        list.append(self, x)
+
+    def remove(self, x):
+        self._y()
+        list.remove(self, x)
 
 
 class _SimManager(object):
